@@ -574,10 +574,23 @@ Proof. split; [apply rot2d_isometry_angle|apply rot2d_additive]. Qed.
 (* ------------------------------------------------------------------ det_2x2: every accepted representation *)
 (* each column may independently be a complex number or an array: the value does not depend on the choice *)
 Definition rep2 (c : bool) (x y : R) : arg2 R := if c then ACplx x y else AVec [x; y].
+Ltac det2_any := unfold g_det_2x2_any; cbv zeta; cbn [is_cplx a2_re a2_im a2_nth bind List.nth];
+                 cbn [osub omul RO Rops]; apply f_equal; ring.
+Lemma det2_cc (x1 y1 x2 y2 : R) : g_det_2x2_any R RO (ACplx x1 y1) (ACplx x2 y2) = Ret (x1 * y2 - y1 * x2).
+Proof. det2_any. Qed.
+Lemma det2_cv (x1 y1 x2 y2 : R) : g_det_2x2_any R RO (ACplx x1 y1) (AVec [x2; y2]) = Ret (x1 * y2 - y1 * x2).
+Proof. det2_any. Qed.
+Lemma det2_vc (x1 y1 x2 y2 : R) : g_det_2x2_any R RO (AVec [x1; y1]) (ACplx x2 y2) = Ret (x1 * y2 - y1 * x2).
+Proof. det2_any. Qed.
+Lemma det2_vv (x1 y1 x2 y2 : R) : g_det_2x2_any R RO (AVec [x1; y1]) (AVec [x2; y2]) = Ret (x1 * y2 - y1 * x2).
+Proof. det2_any. Qed.
 Lemma det2_representation_independent (ca cb : bool) (x1 y1 x2 y2 : R) :
   g_det_2x2_any R RO (rep2 ca x1 y1) (rep2 cb x2 y2) = Ret (x1 * y2 - y1 * x2) /\
   g_det_2x2 R RO [x1; y1] [x2; y2] = x1 * y2 - y1 * x2.
-Proof. destruct ca, cb; (split; [reflexivity|apply det2_expansion]). Qed.
+Proof.
+  split; [|apply det2_expansion].
+  destruct ca, cb; unfold rep2; [apply det2_cc|apply det2_cv|apply det2_vc|apply det2_vv].
+Qed.
 
 (* ------------------------------------------------------------------ solve_quadratic *)
 Definition eps14 : R := 1 / 100000000000000.
